@@ -12,7 +12,13 @@ for m in sorted(glob.glob(os.path.join(os.path.dirname(__file__), '..', 'seeded'
         first = 'barely (1 case)'
     elif det.startswith('tested only after'):
         first = 'not known'
+    elif det.startswith('NOT DETECTED'):
+        first = 'not detected'
     now = det.split('now ')[-1] if 'now ' in det else det
+    if det.startswith('NOT DETECTED'):
+        now = 'not detected (judged to break C05, see 12.8); reported as NOTE'
+    if 'Miri scenario 4' in det:
+        now = 'C17 quick: V17.5-miri-result (Miri scenario 4)'
     now = now.replace('./check ', '').replace('|', '/')
     def short(s, n):
         s = s.replace('|', '/')
